@@ -41,6 +41,14 @@ func (c *ConcCase) Weight() int { return len(c.Prefix) }
 // ConcurrentSub builds the sub-check. calls must be deterministic in content for a given tier;
 // pairs selects the ordered pairs to explore (nil = all).
 func ConcurrentSub(name, what string, calls func(tier string) []Call, pairs func(tier string, n int) [][2]int, qBound, tBound int) *Sub {
+	return ConcurrentSubSweep(name, what, calls, pairs, nil, qBound, tBound)
+}
+
+// ConcurrentSubSweep additionally runs selected calls (probes) against a SWEEP thread that performs
+// every call of the list one after the other - whatever a bounded cache, pool or table does when it
+// is churned (evictions, slot collisions, growth) then happens while the probe is in flight. SWEEP pairs
+// are explored with one preemption (either thread is interrupted once, at any of its sync operations).
+func ConcurrentSubSweep(name, what string, calls func(tier string) []Call, pairs func(tier string, n int) [][2]int, probes func(tier string, n int) []int, qBound, tBound int) *Sub {
 	var cl []Call
 	var want []string
 	var tierOf string
@@ -49,6 +57,17 @@ func ConcurrentSub(name, what string, calls func(tier string) []Call, pairs func
 			return nil
 		}
 		cl, tierOf = calls(tier), tier
+		if probes != nil {
+			all := cl
+			cl = append(cl, Call{Name: "SWEEP(every call once)", Run: func() string {
+				var b strings.Builder
+				for _, c := range all {
+					b.WriteString(c.Run())
+					b.WriteByte('|')
+				}
+				return b.String()
+			}})
+		}
 		want = make([]string, len(cl))
 		for i, c := range cl {
 			want[i] = c.Want
@@ -73,25 +92,40 @@ func ConcurrentSub(name, what string, calls func(tier string) []Call, pairs func
 		Rule:   what + ": every selected ordered pair of calls runs as two logical threads under the cooperative scheduler; scheduling points are the sync / sync/atomic operations the library executes (hooked through the shim packages of the build overlay); all schedules up to the preemption bound are enumerated (stateless DFS, prefix replay, divergence = hard error). After every schedule: both results equal the run-alone results, both calls repeated sequentially still do, and there was no deadlock; non-trivial = schedules with at least one context switch at a sync operation",
 		Bound: func(t string) string {
 			setup(t)
-			np := len(cl) * len(cl)
-			if pairs != nil {
-				np = len(pairs(t, len(cl)))
+			n := len(cl)
+			extra := ""
+			if probes != nil {
+				n--
+				extra = fmt.Sprintf("; %d probes against a SWEEP of all calls with 1 preemption", len(probes(t, n)))
 			}
-			return fmt.Sprintf("%d calls, %d ordered pairs, <=%d preemptions", len(cl), np, bound(t))
+			np := n * n
+			if pairs != nil {
+				np = len(pairs(t, n))
+			}
+			return fmt.Sprintf("%d calls, %d ordered pairs, <=%d preemptions%s", n, np, bound(t), extra)
 		},
 		Setup: setup,
 		Gen: func(tier string, emit func(any) bool) {
 			setup(tier)
+			n := len(cl)
+			if probes != nil {
+				n-- // the SWEEP call is not part of the plain pairs
+				for _, i := range probes(tier, n) {
+					if !emit(&ConcCase{I: i, J: n}) {
+						return
+					}
+				}
+			}
 			if pairs != nil {
-				for _, p := range pairs(tier, len(cl)) {
+				for _, p := range pairs(tier, n) {
 					if !emit(&ConcCase{I: p[0], J: p[1]}) {
 						return
 					}
 				}
 				return
 			}
-			for i := range cl {
-				for j := range cl {
+			for i := 0; i < n; i++ {
+				for j := 0; j < n; j++ {
 					if !emit(&ConcCase{I: i, J: j}) {
 						return
 					}
@@ -176,8 +210,22 @@ func ConcurrentSub(name, what string, calls func(tier string) []Call, pairs func
 				judge(env, s)
 				return
 			}
-			if _, _, err := ExploreSchedules(bound(ctx.Tier), 200000, mk, judge); err != nil {
+			before := Divergences.Load()
+			Tolerant = true
+			b := bound(ctx.Tier)
+			if probes != nil && (cs.I == len(cl)-1 || cs.J == len(cl)-1) {
+				b = 1
+			}
+			_, capped, err := ExploreSchedules(b, 20000, mk, judge)
+			if err != nil {
 				panic(err)
+			}
+			if d := Divergences.Load() - before; d > 0 {
+				ctx.OutcomeN("schedule-replay-diverged", d)
+				ctx.Inexact("schedule replays diverged: the code under test keeps state across executions, so the enumeration of interleavings is not exhaustive there")
+			}
+			if capped {
+				ctx.Inexact("more than 20000 schedules for one pair of calls")
 			}
 		},
 	}
